@@ -13,12 +13,18 @@
 (*     and re-parsing the stored bytes must give the same count, checksum  *)
 (*     and bytes.                                                          *)
 (*                                                                         *)
+(* The parser's two modes (before / after a title line) are explicit state *)
+(* of RuleListCore!Run; the universe has a title line at every position    *)
+(* and "#"-lines that are not plain comments after and before it.          *)
+(*                                                                         *)
 (* cfg constants:  MaxLines, Shapes <- ShapesFull | ShapesCore,            *)
+(*                 Policies <- UniformPolicies | ModePolicies (negative),  *)
 (*                 Endings <- EndingsAll | EndingsLFCR                     *)
 (***************************************************************************)
 EXTENDS RuleListCore, TLC, Json
 
-CONSTANTS MaxLines, Shapes, Endings
+CONSTANTS MaxLines, Shapes, Endings,
+          Policies    \* UniformPolicies; ModePolicies is the negative control
 
 \* Line shapes (token sequences, without the ending).
 ShapesCore == {
@@ -30,6 +36,7 @@ ShapesCore == {
     <<"TITLE">>,              \* title
     <<>>,                     \* blank
     <<"HTML">>,               \* html line (fails only when first)
+    <<"COSM">>,               \* "#"-line that is not a plain comment (policy)
     <<"R2", "BIN">>           \* control byte in a rule: binary
 }
 ShapesFull == ShapesCore \cup {
@@ -51,7 +58,7 @@ VARIABLES st,      \* "init" | "build"
           n        \* number of lines in text
 vars == <<st, text, n>>
 
-Emit(t) == PrintT(<<"@@V", ToJson([t |-> t, adm |-> Admissible(t)])>>)
+Emit(t) == PrintT(<<"@@V", ToJson([t |-> t, adm |-> AdmissibleTagged(t)])>>)
 
 Init == st = "init" /\ text = <<>> /\ n = 0
 
@@ -82,14 +89,15 @@ Spec == Init /\ [][Next]_vars
 Here == {text} \cup (IF text # <<>> /\ text[Len(text)] = "LF"
                      THEN {SubSeq(text, 1, Len(text) - 1)} ELSE {})
 
-\* One text against the statement (one operator so that TLC parses t once).
-Props(t) ==
+\* One text against the statement under one policy (one operator so that TLC
+\* parses t once).
+Props(t, pol) ==
     LET ls == Lines(t)
-        p  == Parse(t)
+        p  == Parse(t, pol)
         tr == [j \in DOMAIN ls |-> Trim(ls[j])]
     IN
-    \* NormalFormIsFixedPoint
-    /\ FixedPoint(t)
+    \* NormalFormIsFixedPoint - for a title line at every position of the text
+    /\ FixedPoint(t, pol)
     \* NormalIsClean: comments and blank lines dropped, lines trimmed
     /\ p.ok => Clean(p.rules)
     \* RulesAreInputLines: nothing is invented
@@ -97,13 +105,13 @@ Props(t) ==
     \* HTMLFirstFails: an HTML line before any rule is a failure
     /\ (\E j \in DOMAIN ls :
             /\ tr[j] # <<>> /\ Head(tr[j]) = "HTML"
-            /\ \A k \in 1..(j - 1) : Class(tr[k], TRUE) \in {"blank", "comment"})
-        => Admissible(t) = {Fail}
+            /\ \A k \in 1..(j - 1) : tr[k] = <<>> \/ Head(tr[k]) \in Comment)
+        => Admissible(t, pol) = {Fail}
     \* BinaryFails: a control byte in a first line that is not a comment
-    /\ (ls # <<>> /\ tr[1] # <<>> /\ Head(tr[1]) \notin Comment /\ Has(tr[1], Control))
-        => Admissible(t) = {Fail}
+    /\ (ls # <<>> /\ tr[1] # <<>> /\ Head(tr[1]) \notin Comment \cup {"COSM"} /\ Has(tr[1], Control))
+        => Admissible(t, pol) = {Fail}
     \* Deterministic: without a soft feature there is exactly one outcome
-    /\ ~Soft(t) => Cardinality(Admissible(t)) = 1
+    /\ ~Soft(t) => Cardinality(Admissible(t, pol)) = 1
 
-Statement == \A t \in Here : Props(t)
+Statement == \A t \in Here, pol \in Policies : Props(t, pol)
 =============================================================================
